@@ -264,7 +264,11 @@ func (r *Run) classifyRace(block []string, anchors []string) {
 		}
 		top := ""
 		fn := ""
+		atomicOp := "plain"
 		for _, l := range sec {
+			if t := strings.TrimSpace(l); strings.HasPrefix(t, "sync/atomic.") && atomicOp == "plain" && !strings.Contains(t, "Int64()") && !strings.Contains(t, "Int32()") {
+				atomicOp = strings.TrimSuffix(strings.TrimPrefix(t, "sync/atomic."), "()")
+			}
 			t := strings.TrimSpace(l)
 			if m := frameRe.FindStringSubmatch(l); m != nil {
 				p := m[1]
@@ -294,6 +298,14 @@ func (r *Run) classifyRace(block []string, anchors []string) {
 				}
 			}
 		}
+		kind := "read"
+		for _, l := range sec {
+			t := strings.ToLower(strings.TrimSpace(l))
+			if strings.HasPrefix(t, "write") || strings.HasPrefix(t, "previous write") || strings.HasPrefix(t, "atomic write") || strings.HasPrefix(t, "previous atomic write") {
+				kind = "write"
+			}
+		}
+		top += "[" + kind + ":" + atomicOp + "]"
 		tops = append(tops, top)
 	}
 	sort.Strings(tops)
@@ -301,6 +313,8 @@ func (r *Run) classifyRace(block []string, anchors []string) {
 	r.Seen("race_locations", key)
 	text := strings.Join(block, "\n")
 	switch {
+	case harness && anchored >= 1 && strings.Contains(strings.ToLower(key), "canary"):
+		r.Violation("race/"+key, "repository code touched an object after the API said it would not: "+key+" (race detector report against the harness canary)", map[string]interface{}{"report": text})
 	case harness && !repo:
 		r.Broken("data race inside the harness: " + key)
 	case anchored >= 2 || (anchored >= 1 && !harness):
